@@ -12,7 +12,7 @@ RULE = (
     "Hypothesis draws fixed and dynamic VHD specs (dynamic: block size 2^12..2^22, BAT = any allocated subset with a "
     "physical placement permutation with gaps, dynamic header and BAT at any 512-aligned offsets in either order, virtual "
     "size not necessarily a block multiple; fixed: payload with holes; both with the 512-byte or the legacy 511-byte "
-    "footer) plus requests biased to block/buffer boundaries and the tail; an independent writer produces image + model; "
+    "footer, Original Size smaller / larger than Current Size or zero, the Temporary feature bit) plus requests biased to block/buffer boundaries and the tail; an independent writer produces image + model; "
     "VHD(fh).read and VHD(fh).disk.read_sectors must equal the model. Non-trivial = a request crosses a boundary between "
     "blocks that are not physically adjacent, or reads the partial last block, or block size != 2 MiB, or legacy footer."
 )
@@ -29,6 +29,19 @@ def budget(tier):
 
 @st.composite
 def vhd_spec(draw, tier="quick", layer=0, kind=None):
+    spec = draw(_vhd_spec(tier, layer, kind))
+    # footer fields a reader must not confuse with the current size / the footer variant: a disk resized after creation
+    # (Original Size != Current Size) and the Temporary feature bit next to the reserved bit (512-byte footers only)
+    how = draw(st.sampled_from([None, None, "smaller", "larger", "zero"]))
+    if how:
+        spec["original_size"] = {"smaller": max(512, (spec["size"] // 1024) * 512), "larger": spec["size"] * 2 + 512, "zero": 0}[how]
+    if not spec.get("legacy_footer") and draw(st.integers(0, 3)) == 0:
+        spec["features"] = 3
+    return spec
+
+
+@st.composite
+def _vhd_spec(draw, tier="quick", layer=0, kind=None):
     kind = kind or draw(st.sampled_from(["fixed", "dynamic", "dynamic", "dynamic"]))
     legacy = draw(st.sampled_from([False, False, False, True]))
     if kind == "fixed":
